@@ -42,7 +42,7 @@ def bounds(tier):
             "max_pos": 3,
             "max_neg": 3,
             "easy": [0, 1, 2],
-            "grids": ["irregular", "int", "dyadic"],
+            "grids": ["irregular", "int", "dyadic", "uint"],
             "threshold_alphabet": "4m+3 relative points incl. ulp neighbours and +-inf",
             "input_forms": "all permutations (<=3 per class), list/int64/float64/float32, "
             "from_labels, is_sorted=True",
@@ -51,7 +51,7 @@ def bounds(tier):
         "max_pos": 5,
         "max_neg": 5,
         "easy": [0, 1, 2, 3],
-        "grids": ["irregular", "int", "dyadic", "negated", "ulp"],
+        "grids": ["irregular", "int", "dyadic", "negated", "ulp", "uint"],
         "threshold_alphabet": "4m+3 relative points incl. ulp neighbours and +-inf",
         "input_forms": "all permutations (<=3 per class; reversed+rotation beyond), "
         "list/int64/float64/float32, from_labels, is_sorted=True",
@@ -91,7 +91,7 @@ def run(item, ctx, tier, seed):
     lo, hi = (min(vals), max(vals)) if vals else (math.inf, -math.inf)
     nontriv_t = [lo <= t <= hi for t in T]
     easy_menu = list(itertools.product(b["easy"], repeat=2))
-    is_int = item["grid"] == "int"
+    is_int = item["grid"] in ("int", "uint")
     big = len(pos) + len(neg) > 7  # thorough tier: the many large order types get a reduced menu
     if big:
         easy_menu = [(0, 0), (b["easy"][-1], 1), (1, 2)]
@@ -107,7 +107,7 @@ def run(item, ctx, tier, seed):
         forms.append(("perm", pos, nn, {}))
     if pos_perms[1:] and neg_perms[1:]:
         forms.append(("perm", pos_perms[-1], neg_perms[-1], {}))
-    dt = np.int64 if is_int else np.float64
+    dt = np.uint8 if item["grid"] == "uint" else (np.int64 if is_int else np.float64)
     forms.append(("ndarray", np.array(pos[::-1], dtype=dt), np.array(neg[::-1], dtype=dt), {}))
     if item["grid"] == "irregular":
         forms.append(
@@ -218,6 +218,28 @@ def run(item, ctx, tier, seed):
                                 ov = getattr(s, orig)(Tarr)
                                 if not np.array_equal(np.asarray(av), np.asarray(ov), equal_nan=True):
                                     ctx.fail("alias", dict(case, alias=al), observed=av, expected=ov)
+        # ---- derived objects (swap, bootstrap samples incl. smoothing) are judged on their own arrays ----
+        if item["grid"] == "irregular" and not big and pos and neg:
+            from mc.derived import derived_objects
+
+            ok, s0 = guarded(ctx, "construct", {"pos": pos, "neg": neg, "cfg": cfg}, Scores, pos[::-1], neg[::-1], nb_easy_pos=1,
+                             nb_easy_neg=2, score_class=sc, equal_class=ec)
+            for how, d in (derived_objects(s0, seed) if ok else []):
+                dp, dn = np.asarray(d.pos, dtype=float).tolist(), np.asarray(d.neg, dtype=float).tolist()
+                dvals = sorted(set(dp + dn))
+                DT = ot.threshold_alphabet(dvals) if dvals else [0.0]
+                case = {"blocks": item["blocks"], "source_pos": pos, "source_neg": neg, "cfg": cfg, "derived": how,
+                        "pos": dp, "neg": dn}
+                ctx.state()
+                okd, md = guarded(ctx, "cm-derived", case, lambda: d.cm(np.array(DT)).matrix.tolist())
+                ctx.tick(len(DT))
+                if okd:
+                    dsc, dec = d.score_class.value, d.equal_class.value
+                    for k, t in enumerate(DT):
+                        exp = refs.ref_cm(dp, dn, t, dsc, dec, int(d.nb_easy_pos), int(d.nb_easy_neg))
+                        if md[k] != exp:
+                            ctx.fail("cm-equals-counting-on-derived-object", dict(case, threshold=t), observed=md[k], expected=exp)
+                            break
         # ---- from_labels with a permuted label vector ----------------------
         lab = [1] * len(pos) + [0] * len(neg)
         scs = list(pos) + list(neg)
